@@ -292,11 +292,14 @@ SumTo(ds, i) == IF i = 0 THEN 0 ELSE ds[i] + SumTo(ds, i - 1)
 PT(j, i) == Job(j).t + SumTo(Job(j).ds, i)      \* planned instant of segment i of job j
 
 \* (a) a crashed / paused entity executes nothing: no handler, no process step, no emission
-CrashTab == [e \in EntDom |-> CrashWins(e)]
-QuietBadAct(L) == LET cw == CrashTab IN { n \in 1..Len(L.act) : SomeStrict(cw[L.act[n][1]], L.act[n][4]) }
-QuietBadSnk(L) == LET cw == CrashTab IN { n \in 1..Len(L.snk) : SomeStrict(cw[L.snk[n][1]], L.snk[n][4]) }
-QuietBadMsg(L) == LET cw == CrashTab IN
-                  { n \in 1..Len(L.msgs) : SomeStrict(cw[sch.probes[L.msgs[n][1]].y], L.msgs[n][2]) }
+\* (operators of the form UNION { LET ws == ... IN { ... } : key \in Keys } compute the windows of a key once)
+CrashEnts == { Win(w).tg[1] : w \in { v \in 1..NW : Live(v) /\ IsCrashK(Win(v).k) } }
+QuietBadIn(log, ent(_), time(_)) ==
+    UNION { LET ws == CrashWins(e) IN { n \in 1..Len(log) : ent(log[n]) = e /\ SomeStrict(ws, time(log[n])) }
+            : e \in CrashEnts }
+QuietBadAct(L) == QuietBadIn(L.act, LAMBDA it : it[1], LAMBDA it : it[4])
+QuietBadSnk(L) == QuietBadIn(L.snk, LAMBDA it : it[1], LAMBDA it : it[4])
+QuietBadMsg(L) == QuietBadIn(L.msgs, LAMBDA it : sch.probes[it[1]].y, LAMBDA it : it[2])
 CrashQuiet(L) == QuietBadAct(L) = {} /\ QuietBadSnk(L) = {} /\ QuietBadMsg(L) = {}
 
 \* (b) processing outside the windows is what it is without faults; bystanders are unaffected.
@@ -310,32 +313,36 @@ SpuriousSnk(L) == { n \in 1..Len(L.snk) : ~(Planned(L.snk[n]) /\ Job(L.snk[n][2]
 \* ... and every planned segment whose whole history lies outside the windows of its entity ran
 \* (plain nodes: no window touches [start of the job, planned instant]; Q: the job arrives after
 \* the last window of Q has ended, service times depend on the queue)
-DemandedIn(cw, j, i) ==
-    LET e == Job(j).e IN
-    IF e = Q THEN \A w \in cw[Q] : Win(w).e < Job(j).t
-    ELSE cw[e] = {} \/ \A w \in cw[e] : ~(Win(w).s <= PT(j, i) /\ Win(w).e >= Job(j).t)
-Demanded(j, i) == DemandedIn(CrashTab, j, i)
-Segs == UNION { { <<j, i>> : i \in 0..Len(Job(j).ds) } : j \in 1..NJ }
+DemandedIn(ws, j, i) ==
+    IF Job(j).e = Q THEN \A w \in ws : Win(w).e < Job(j).t
+    ELSE ws = {} \/ \A w \in ws : ~(Win(w).s <= PT(j, i) /\ Win(w).e >= Job(j).t)
+Demanded(j, i) == DemandedIn(CrashWins(Job(j).e), j, i)
+JobEnts == { Job(j).e : j \in 1..NJ }
+SegsOf(e) == UNION { { <<j, i>> : i \in 0..Len(Job(j).ds) } : j \in { k \in 1..NJ : Job(k).e = e } }
 JI(s) == { <<s[n][2], s[n][3]>> : n \in 1..Len(s) }
-MissingAct(L) == LET ran == JI(L.act)  cw == CrashTab IN
-                 { s \in Segs : s \notin ran /\ DemandedIn(cw, s[1], s[2]) }
-MissingSnk(L) == LET ems == JI(L.snk)  cw == CrashTab IN
-                 { s \in Segs : Job(s[1]).em[s[2] + 1] = 1 /\ s \notin ems /\ DemandedIn(cw, s[1], s[2]) }
+MissingAct(L) == LET ran == JI(L.act) IN
+                 UNION { LET ws == CrashWins(e) IN { s \in SegsOf(e) \ ran : DemandedIn(ws, s[1], s[2]) }
+                         : e \in JobEnts }
+MissingSnk(L) == LET ems == JI(L.snk) IN
+                 UNION { LET ws == CrashWins(e) IN
+                         { s \in SegsOf(e) \ ems : Job(s[1]).em[s[2] + 1] = 1 /\ DemandedIn(ws, s[1], s[2]) }
+                         : e \in JobEnts }
 Unaffected(L) == SpuriousAct(L) = {} /\ SpuriousSnk(L) = {} /\ NoDup(L.act) /\ NoDup(L.snk)
 Resumes(L) == MissingAct(L) = {} /\ MissingSnk(L) = {}
 
 \* (c) partition / latency / loss / capacity in effect exactly while a window covering the target
 \* is open: strictly inside some window => in effect; outside every (closed) window => not
-EffBad(ws, t, on) == (SomeStrict(ws, t) /\ ~on) \/ (~SomeWeak(ws, t) /\ on)
+EffBad(ws, t, on) == IF ws = {} THEN on ELSE (SomeStrict(ws, t) /\ ~on) \/ (~SomeWeak(ws, t) /\ on)
 ObsLink(L) == { n \in 1..Len(L.obs) : L.obs[n][2] # 0 }
 ObsPairs(L) == { <<L.obs[n][2], L.obs[n][3]>> : n \in ObsLink(L) }
 PairOf(o) == <<o[2], o[3]>>
-PartBad(L) == LET tab == [pr \in ObsPairs(L) |-> PartWins(pr[1], pr[2])] IN
-              { n \in ObsLink(L) : EffBad(tab[PairOf(L.obs[n])], L.obs[n][1], L.obs[n][4] = 1) }
-LossBad(L) == LET tab == [pr \in ObsPairs(L) |-> LinkWins("loss", pr[1], pr[2])] IN
-              { n \in ObsLink(L) : EffBad(tab[PairOf(L.obs[n])], L.obs[n][1], L.obs[n][5] = 1) }
-LatBad(L)  == LET tab == [pr \in ObsPairs(L) |-> LinkWins("lat", pr[1], pr[2])] IN
-              { n \in ObsLink(L) : EffBad(tab[PairOf(L.obs[n])], L.obs[n][1], L.obs[n][6] = 1) }
+EffBadIn(L, wins(_), col) ==
+    LET ol == ObsLink(L) IN
+    UNION { LET ws == wins(pr) IN { n \in ol : PairOf(L.obs[n]) = pr /\ EffBad(ws, L.obs[n][1], L.obs[n][col] = 1) }
+            : pr \in ObsPairs(L) }
+PartBad(L) == EffBadIn(L, LAMBDA pr : PartWins(pr[1], pr[2]), 4)
+LossBad(L) == EffBadIn(L, LAMBDA pr : LinkWins("loss", pr[1], pr[2]), 5)
+LatBad(L)  == EffBadIn(L, LAMBDA pr : LinkWins("lat", pr[1], pr[2]), 6)
 CapBad(L)  == LET cw == CapWs IN { n \in 1..Len(L.obs) : EffBad(cw, L.obs[n][1], L.obs[n][7] < sch.C) }
 \* the same on the probe traffic itself: dropped while partitioned / lossy, delivered (once) when
 \* nothing covers the pair and the receiver is never crashed, delayed iff a latency window is open
@@ -345,22 +352,25 @@ NoCrashAtAll(e) == \A w \in 1..NW : ~(IsCrashK(Win(w).k) /\ Win(w).tg[1] = e)
 Delivered(L) == { L.msgs[n][1] : n \in 1..Len(L.msgs) }
 \* probes whose message must not / must arrive but did / did not
 MsgFateBad(L) ==
-    LET dl == Delivered(L)
-        pt == [pr \in SendPairs |-> PartWins(pr[1], pr[2])]
-        lt == [pr \in SendPairs |-> LinkWins("loss", pr[1], pr[2])]
-        nc == [pr \in SendPairs |-> NoCrashAtAll(pr[2])]
-    IN { p \in Senders :
-           LET P == sch.probes[p]  pr == <<P.x, P.y>> IN
-           \/ p \in dl /\ (SomeStrict(pt[pr], P.t) \/ SomeStrict(lt[pr], P.t))
-           \/ p \notin dl /\ nc[pr] /\ ~SomeWeak(pt[pr], P.t) /\ ~SomeWeak(lt[pr], P.t) }
+    LET dl == Delivered(L)  snd == Senders IN
+    UNION { LET pw == PartWins(pr[1], pr[2])  lw == LinkWins("loss", pr[1], pr[2])  nc == NoCrashAtAll(pr[2]) IN
+            { p \in snd :
+                LET P == sch.probes[p] IN
+                /\ P.x = pr[1] /\ P.y = pr[2]
+                /\ \/ p \in dl /\ (SomeStrict(pw, P.t) \/ SomeStrict(lw, P.t))
+                   \/ p \notin dl /\ nc /\ ~SomeWeak(pw, P.t) /\ ~SomeWeak(lw, P.t) }
+            : pr \in SendPairs }
 \* deliveries (positions in msgs) that are a second copy, or whose delay contradicts the latency windows
 MsgDup(L) == Cardinality(Delivered(L)) # Len(L.msgs)
 MsgDelayBad(L) ==
-    LET dt == [pr \in SendPairs |-> LinkWins("lat", pr[1], pr[2])] IN
-    { n \in 1..Len(L.msgs) :
-        LET P == sch.probes[L.msgs[n][1]]  dw == dt[<<P.x, P.y>>]  dly == L.msgs[n][2] - P.t IN
-        \/ SomeStrict(dw, P.t) /\ dly <= sch.L0
-        \/ ~SomeWeak(dw, P.t) /\ dly # sch.L0 }
+    UNION { LET dw == LinkWins("lat", pr[1], pr[2]) IN
+            { n \in 1..Len(L.msgs) :
+                LET P == sch.probes[L.msgs[n][1]]  dly == L.msgs[n][2] - P.t IN
+                /\ P.x = pr[1] /\ P.y = pr[2]
+                /\ IF dw = {} THEN dly # sch.L0
+                   ELSE \/ SomeStrict(dw, P.t) /\ dly <= sch.L0
+                        \/ ~SomeWeak(dw, P.t) /\ dly # sch.L0 }
+            : pr \in SendPairs }
 Traffic(L) == MsgFateBad(L) = {} /\ ~MsgDup(L) /\ MsgDelayBad(L) = {}
 
 \* (d) once every window has ended the system is back to its configured state
@@ -372,15 +382,15 @@ EndBad(L) == LET le == LastEnd IN
 \* ---- invariants of the model-checking mode (contract on the model's own logs) ----
 ML == [act |-> m.act, snk |-> m.snk, obs |-> m.obs, msgs |-> m.msgs, hlog |-> m.hlog]
 \* (the logs only grow, so a clause false at any point is false at the end of the run)
-InvCrashQuiet == Done(m) => CrashQuiet(ML)
-InvUnaffected == Done(m) => Unaffected(ML)
-InvResumes == Done(m) => Resumes(ML)
-InvPartition == Done(m) => PartBad(ML) = {}
-InvLoss == Done(m) => LossBad(ML) = {}
-InvLatency == Done(m) => LatBad(ML) = {}
-InvCapacity == Done(m) => CapBad(ML) = {}
-InvTraffic == Done(m) => Traffic(ML)
-InvEndState == Done(m) => EndBad(ML) = {}
+InvCrashQuiet == (Done(m) /\ sch.dev = {}) => CrashQuiet(ML)
+InvUnaffected == (Done(m) /\ sch.dev = {}) => Unaffected(ML)
+InvResumes == (Done(m) /\ sch.dev = {}) => Resumes(ML)
+InvPartition == (Done(m) /\ sch.dev = {}) => PartBad(ML) = {}
+InvLoss == (Done(m) /\ sch.dev = {}) => LossBad(ML) = {}
+InvLatency == (Done(m) /\ sch.dev = {}) => LatBad(ML) = {}
+InvCapacity == (Done(m) /\ sch.dev = {}) => CapBad(ML) = {}
+InvTraffic == (Done(m) /\ sch.dev = {}) => Traffic(ML)
+InvEndState == (Done(m) /\ sch.dev = {}) => EndBad(ML) = {}
 
 Next == Pop
 =============================================================================
